@@ -43,7 +43,8 @@ def frontend_histories(rng, tier):
                 for classc in (0, 1):
                     base = "adev r=%d lead=15 classc=%d %s" % (region, classc, sess)
                     # radio calls per send: at most ~12; inject a fault at every position
-                    for fault in ["-"] + list(range(0, 14 * depth, 1 if tier == "thorough" else 2)):
+                    # single faults at every position, and outages (several radio calls in a row fail)
+                    for fault in ["-"] + list(range(0, 14 * depth, 1 if tier == "thorough" else 2)) + ["%dx%d" % (k, n) for k in range(0, 14 * depth, 3) for n in (2, 40)]:
                         sc_ops = [o if not classc else o.rsplit(" ", 1)[0] + " " + ",".join("P," + x for x in o.rsplit(" ", 1)[1].split(",")) for o in ops]
                         lines.append("%s fault=%s | %s | fcnt" % (base, fault, " | ".join(sc_ops)))
                 # nb: send / phy / timeouts
